@@ -801,6 +801,8 @@ func c09Worker(args []string) int {
 			h = randomHistory(seed, idx-len(directed))
 		}
 		h.Index = idx
+		// progress marker (read by the parent if this process dies inside a library call)
+		os.WriteFile(out+".cur", []byte(strconv.Itoa(idx)), 0o644)
 		nv := len(res.Violations)
 		outcomes := res.runHistory(seed, h, dir, c09cfgs)
 		if res.Err != "" {
@@ -845,7 +847,9 @@ func runC09(r *core.Run) (bool, string) {
 	r.SetRule("evaluations = API calls (history operations, aliasing/refusal probes, end-of-history read-back reads) whose result was compared with the array model; " +
 		"distinct_nontrivial = distinct histories by hash of (disk size, operation list); call_classes lists the distinct (operation, address class, in/out of range, buffer class, outcome) tuples that occurred. " +
 		"Histories: a seed-independent directed layer (fresh-disk scans, fill/read-back, special addresses, every write length, buffer re-use with barriers, for each disk size in {0,1,2,3,7,64}) plus seeded random histories of 1–200 operations; " +
-		"each history is applied to all eight configurations {disk,async_disk}×{Mem,File}×{methods,global wrappers} and every result is compared with the model")
+		"each history is applied to all eight configurations {disk,async_disk}×{Mem,File}×{methods,global wrappers} and every result is compared with the model. " +
+		"Refusal layer (refusal_* keys): per configuration, in a child process with a single goroutine and no timers, sequences 'refused operation(s) (every out-of-range address class under Read/ReadTo/Write, every wrong write-buffer length) then Size, Barrier, Read, ReadTo, Write+read-back on the SAME object', refusals in pairs, alternating with accepted calls, and seeded random mixtures, each call announced before it is made and compared with the model; " +
+		"a call that never returns is decided by the Go runtime's own 'all goroutines are asleep - deadlock!' report (the parent's wall-clock watchdog only yields inconclusive)")
 	r.Assume("async_disk has no package-level wrappers; its 'global' configuration passes the async_disk-constructed disk to disk.Init and uses package disk's wrappers (ReadTo, which has no wrapper, through disk.Get())")
 	r.Assume("ReadTo is only called with 4096-byte buffers (other sizes are outside the statement)")
 	r.Assume("panics are compared by occurrence, not message")
@@ -857,6 +861,7 @@ func runC09(r *core.Run) (bool, string) {
 	nw := 16
 	nrand := r.Pick(1000, 20000)
 	results := make([]*c09result, nw)
+	deadlocked := make([]*c09viol, nw)
 	core.Parallel(nw, nw, func(i int) {
 		dir := filepath.Join(r.Scratch, fmt.Sprintf("c09w%d", i))
 		out := filepath.Join(r.Scratch, fmt.Sprintf("c09w%d.json", i))
@@ -867,6 +872,31 @@ func runC09(r *core.Run) (bool, string) {
 			return
 		}
 		b, err := os.ReadFile(out)
+		if (err != nil || res.Code != 0) && bytes.Contains([]byte(res.Stderr), []byte(goDeadlockMsg)) {
+			// the worker has one goroutine (the one calling the library) and arms no timer: the
+			// runtime's deadlock report means a library call of the history can never return
+			cur, _ := os.ReadFile(out + ".cur")
+			idx, _ := strconv.Atoi(string(cur))
+			var hist interface{}
+			if d := directedHistories(); idx < len(d) {
+				h := d[idx]
+				h.Index = idx
+				hist = h
+			} else {
+				h := randomHistory(r.Seed, idx-len(d))
+				h.Index = idx
+				if len(h.Ops) > 60 {
+					h.Ops = h.Ops[:60]
+				}
+				hist = h
+			}
+			frame := c09DeadlockFrame(res.Stderr)
+			deadlocked[i] = &c09viol{Sig: "lockstep-history-call-never-returns-" + frame,
+				What: fmt.Sprintf("while applying history %d to the eight configurations a call never returned: the Go runtime reports '%s' with the only goroutine of the worker blocked in %s", idx, goDeadlockMsg, frame),
+				Detail: map[string]interface{}{"seed": r.Seed, "history_index": idx, "history (first 60 ops)": hist, "worker_stderr": tail09(res.Stderr, 4000),
+					"replay": "apply the history to each of the eight configurations in turn on one disk object per configuration, recovering each panic"}}
+			return
+		}
 		if err != nil || res.Code != 0 {
 			r.Inconclusive("worker-failed")
 			fmt.Fprintf(os.Stderr, "c09 worker %d: exit %d %s\n", i, res.Code, lastLines(res.Stderr, 8))
@@ -879,6 +909,13 @@ func runC09(r *core.Run) (bool, string) {
 			results[i] = &wr
 		}
 	})
+	for _, v := range deadlocked {
+		if v != nil {
+			r.Count("workers_ended_by_runtime_deadlock_report", 1)
+			r.Violate(v.Sig, v.What, v.Detail)
+		}
+	}
+	c09Refusal(r)
 	classes := map[string]int64{}
 	for _, wr := range results {
 		if wr == nil {
